@@ -56,6 +56,13 @@ def failure(exc):
         out["value"] = v if isinstance(v, str) else "<%s>" % type(v).__name__
         out["exc_cls"] = type(exc.exception).__name__
         out["exc_is_valueerror"] = isinstance(exc.exception, ValueError)
+        from zcsim import world as _world
+        w = _world.CURRENT
+        if w is not None and w.raised:
+            # a simulator callback rejected something during this operation:
+            # is .exception the very object it raised?
+            out["exc_is_original"] = any(exc.exception is r
+                                         for r in w.raised)
     if isinstance(exc, ZConfig.SubstitutionReplacementError):
         out["name"] = exc.name
         out["source"] = exc.source
